@@ -11,7 +11,7 @@ namespace Sbdf
 macro "stable_tac" "[" ls:Lean.Parser.Tactic.SolveByElim.arg,* "]" : tactic =>
   `(tactic| (repeat' (first
       | exact Stable.pure _ | exact Stable.fail _ | exact Stable.ub _ | exact Stable.readN _
-      | exact Stable.seek _ | exact Stable.alloc _ _ | exact Stable.guardUB _ _
+      | exact Stable.seek _ | exact Stable.skipBytes _ _ | exact Stable.alloc _ _ | exact Stable.guardUB _ _
       | solve_by_elim (maxDepth := 3) only [$ls,*]
       | refine Stable.bind ?_ (fun _ => ?_)
       | refine Stable.readMany ?_ _
